@@ -6,7 +6,7 @@ id="$1"; prop="$2"; tier="${3:-quick}"
 cd /verif
 git -C /repo diff --quiet || { echo "/repo has uncommitted changes; refusing"; exit 2; }
 git -C /repo apply "/verif/seeded/$id/patch.diff" || { echo "patch does not apply"; exit 2; }
-mkdir -p /tmp/mutant_root && cp /verif/known_findings.jsonl /tmp/mutant_root/
+mkdir -p /tmp/mutant_root/replays && cp /verif/known_findings.jsonl /tmp/mutant_root/ && rm -rf /tmp/mutant_root/replays/keep && cp -r /verif/replays/keep /tmp/mutant_root/replays/keep
 out="/tmp/mutant_${id}_${prop}_${tier}.log"
 VERIF_ROOT=/tmp/mutant_root ./check "$prop" "$tier" > "$out" 2>&1
 rc=$?
